@@ -83,7 +83,7 @@ def c13_bounded(tier="quick", seed=0):
     notrej = []
     for src in REJECT:
         try:
-            r = Context(time_limit=2).eval(src)
+            r = Context(time_limit=20).eval(src)
             notrej.append((src, f"accepted, evaluated to {r!r}"))
         except JSSyntaxError:
             pass
@@ -97,7 +97,7 @@ def c13_bounded(tier="quick", seed=0):
     out.append(ob("C13.bounded.reject.rest", True, "B", f"{len(REJECT) - len(notrej)} malformed sources rejected with JSSyntaxError", domain=len(REJECT) - len(notrej)))
     for i, (a, b) in enumerate(ACCEPT_SAME):
         try:
-            ra, rb = Context(time_limit=2).eval(a), Context(time_limit=2).eval(b)
+            ra, rb = Context(time_limit=20).eval(a), Context(time_limit=20).eval(b)
             ok, det = ra == rb, f"{a!r} -> {ra!r}; {b!r} -> {rb!r}"
         except Exception as e:  # noqa
             ok, det = False, f"{a!r} / {b!r}: {type(e).__name__}: {str(e)[:80]}"
@@ -114,7 +114,7 @@ def c13_bounded(tier="quick", seed=0):
     bad = None
     n = 0
     for p in progs:
-        base = Context(time_limit=2).eval(p)
+        base = Context(time_limit=20).eval(p)
         toks = []
         lx = Lexer(p)
         while True:
@@ -140,7 +140,7 @@ def c13_bounded(tier="quick", seed=0):
             q = "".join(pieces)
             n += 1
             try:
-                r = Context(time_limit=2).eval(q)
+                r = Context(time_limit=20).eval(q)
             except Exception as e:  # noqa
                 r = type(e).__name__ + ": " + str(e)[:60]
             if r != base and bad is None:
